@@ -198,7 +198,7 @@ func c07Run(c *core.Ctx, k c07Cfg) {
 			return
 		}
 		reqID = ar.ID
-		u, err := ar.Redirect(url.QueryEscape(relay), sp) // escaped by the caller: relay-state handling on this path is C12's subject
+		u, err := ar.Redirect(relay, sp)
 		if err != nil {
 			c.Violation("C07/sp-redirect-error", err.Error(), nil)
 			return
